@@ -39,7 +39,7 @@ Proof. vm_compute. reflexivity. Qed.
 Theorem C18_prefix_site :
   existsb (fun t => pystr_eqb (t_cls t) (s2p "Structure") && pystr_eqb (t_fn t) (s2p "__init__") &&
                     match t_segs t with
-                    | [Param _; Lit [46%N]; Other] => true
+                    | [Param _; Lit [46%N]; Param _] => true
                     | _ => false
                     end) templates = true.
 Proof. vm_compute. reflexivity. Qed.
